@@ -1188,7 +1188,7 @@ int main(int argc, char** argv)
 
     if (prop == "C09")
     {
-        const int depth = thorough ? 5 : 4;
+        const int depth = thorough ? 7 : 5;
         run.rule = "every history over the 13-op alphabet {setDeviceId x2, setStreamId x2, restart, encode x8 (batch,context,version) triples, two of which differ from another one in the version only} up to the "
                    "stated depth as a tree of copied real Encoder objects, every prefix judged by the counter/identity model; distinct = distinct "
                    "(frame structure of the last call, last counter, identity) outcomes";
@@ -1236,7 +1236,7 @@ int main(int argc, char** argv)
 
     if (prop == "C10")
     {
-        const int depth = thorough ? 4 : 3;
+        const int depth = thorough ? 6 : 4;
         run.rule = "for every history of depth <= d over the C09 alphabet and every final (batch,context,version) of a 12-element set plus 'the same batch "
                    "as the last call': frames of the used real Encoder vs frames of a fresh Encoder with the same ids, byte for byte modulo a "
                    "constant counter offset; distinct = distinct (used, fresh) frame-structure pairs";
